@@ -1,5 +1,6 @@
 //! The generated object: a `Case` is a history of operations plus every source of
 //! schedule non-determinism (select seed, rounding phase, fan-out order, yield points).
+use crate::trace::Req;
 use serde::{Deserialize, Serialize};
 
 /// Topic reference into the small name pools (`projects/p{p}/topics/top{i}`).
@@ -109,6 +110,16 @@ pub enum Op {
     PollDrop { op: Box<Op>, k: u8, settle_between: bool },
     /// C11: list every pooled topic's subscriptions and get every pooled subscription
     CheckLists,
+    /// C17: a request with arbitrary field values
+    Raw { req: Req, a: bool },
+    /// C17: Publish to an arbitrary topic string
+    RawPublish { topic: String, n: u8, a: bool },
+    /// C17: StreamingPull opened with arbitrary first-request fields
+    StreamOpenRaw { sub: String, max_out: i64 },
+    /// C17: a control message with arbitrary fields on the k-th open stream
+    StreamRaw { k: u8, subscription: String, max_out: i64, max_bytes: i64, acks: Vec<String>, mod_ids: Vec<String>, mod_secs: Vec<i32> },
+    /// C16/C17: record the complete observable state
+    Snapshot,
     /// C13: one list call with a page token the server did not necessarily issue
     ListTok { kind: u8, p: u8, t: T, size: i32, tok: Tok },
 }
